@@ -117,6 +117,23 @@ def run(F, tier, res):
             else:
                 res.violate('BALANCED', 'fn=%s;what=%s' % (p, what), 'an escape sequence that changes the terminal state (%s) is emitted without a reset on every path: '
                             'the rendition leaks into the following lines' % what, where=F.bodies[p]['mir']['span']['at'])
+    # manual style brackets: ansi_term's Style::prefix() opens a rendition without closing it (unlike paint()); every such open must
+    # be followed, on every path to the function's return, by the matching suffix()
+    npf = okpf = 0
+    for p in sorted(scope):
+        pre = [(i, c) for i, c in F.calls(p) if callee_of(c).endswith('::prefix') and 'ansi_term' in callee_full(c)]
+        if not pre:
+            continue
+        suf = {i for i, c in F.calls(p) if callee_of(c).endswith('::suffix') and 'ansi_term' in callee_full(c)}
+        errexits = {i for i, c in F.calls(p) if 'from_residual' in callee_of(c)}     # a failed write ends the output anyway
+        for (i, c) in pre:
+            npf += 1
+            if suf and not Ru.must_pass(F, p, F.cfg(p).get(i, []), suf | errexits):
+                okpf += 1
+            else:
+                res.violate('BALANCED', 'fn=%s;prefix-without-suffix' % p, 'a style is opened with Style::prefix() and on some path to the return no Style::suffix() closes it: '
+                            'the rendition leaks into the following lines', where=F.span_of_call(c))
+    res.rule('C09.PREFIX-SUFFIX', npf, 0, 'manual Style::prefix() opens, each followed by suffix() on every path (none on the unchanged tree; seeded/C09d is the positive control)', discharged=okpf)
     res.rule('C09.BALANCED', n, 2, 'uses of state-setting escape constants / ESC literals in output-producing code', discharged=ok, samples=samples)
     # ---------- CUTTERS
     nc = okc = 0
